@@ -34,18 +34,20 @@ class CacheLock:
 
     def __enter__(self):
         os.makedirs(self.cache_folder, exist_ok=True)
-        last_timestamp = _read_last_cached_time(self.cache_folder)
-        self.current_timestamp = time.time()
-        time_since_update = self.current_timestamp - last_timestamp
-        if time_since_update < self.time_threshold:
-            raise CacheException(f"Last updated {time_since_update} seconds ago.  Threshold is {self.time_threshold}")
-
         try:
             self.cache_lock = portalocker.Lock(self.cache_lock_filename, timeout=1)
             self.cache_lock.acquire()
         except portalocker.exceptions.LockException:
             raise CacheException(f"Could not lock cache using {self.cache_lock_filename}")
-        pass
+        self.current_timestamp = time.time()
+        if self.write_time:
+            # Only a holder that records the refresh time is subject to the refresh interval.  The time is read
+            # while the lock is held, so a holder that waited for another refresher sees that refresh.
+            last_timestamp = _read_last_cached_time(self.cache_folder)
+            time_since_update = self.current_timestamp - last_timestamp
+            if time_since_update < self.time_threshold:
+                self.cache_lock.release()
+                raise CacheException(f"Last updated {time_since_update} seconds ago.  Threshold is {self.time_threshold}")
 
     def __exit__(self, exc_type, exc_value, traceback):
         if self.write_time:
